@@ -57,7 +57,7 @@ fn check(id: &str, tier: Tier) -> i32 {
             run_check(&props::c09::C09, &ctx, &[("graphs", n)], |_, _, _| Vec::new()).exit
         }
         "C08" => {
-            let n = ctx.runs(20_000, 2_000_000);
+            let n = ctx.runs(200_000, 5_000_000);
             run_check(&props::c08::C08, &ctx, &[("histories", n)], |_, _, _| Vec::new()).exit
         }
         "C12" => {
@@ -215,7 +215,7 @@ fn main() {
                 source: src, path, modules, answers: Default::default(), driver: host::Driver::Step,
                 gc: host::GcSched { force_at_suspend: true, ..host::GcSched::threshold(thr) },
                 tape: rng::Tape::from_vec(vec![]), fuel: 3_000_000, clock_start: 0, random_seed: 1, withhold_imports: false, linked_promises: false,
-                host_activity_pm: 0, internal_sources: Default::default(),
+                host_activity_pm: 0, internal_sources: Default::default(), stale_answer_ids: Vec::new(),
             };
             let out = host::run_solo(&spec);
             println!("result: {}", out.result);
@@ -294,7 +294,7 @@ fn main() {
                 let mk = |gc: host::GcSched| host::RunSpec {
                     source: src.clone(), path: None, modules: Default::default(), answers: Default::default(), driver: host::Driver::Step, gc,
                     tape: rng::Tape::from_vec(vec![]), fuel: 3_000_000, clock_start: 0, random_seed: 1, withhold_imports: false, linked_promises: false,
-                    host_activity_pm: 0, internal_sources: Default::default(),
+                    host_activity_pm: 0, internal_sources: Default::default(), stale_answer_ids: Vec::new(),
                 };
                 let base = host::run_solo(&mk(host::GcSched::off()));
                 let gc = host::run_solo(&mk(host::GcSched::threshold(1)));
